@@ -659,3 +659,146 @@ class SizeStatistics(Contract):
             out.append(("count is the length of the filtered radius list", getattr(rl, "_count", None) is not None and cnt is rl._count))
         out.append(("no droplet is modified", frame_old_records(run, arrs0, lay)))
         return out
+
+
+# ---------------------------------------------------------------------------------------------------
+KEY_LINK = f"{EM}:Emulsion.get_linked_data"
+
+
+class _RowArr:
+    """the array returned by Emulsion.data for n members: n NEW records (a block of fresh references), row k holding the values of member k"""
+
+    def __init__(self, run, base, n, layout):
+        self.run, self.base, self.n, self.layout = run, base, n, layout
+
+    def sym_len(self, run):
+        return self.n
+
+    def sym_getitem(self, run, idx):
+        i = to_z3(idx)
+        run.oblige("row index in range (linked data)", z3.And(i >= 0, i < self.n), kind="implicit")
+        return H.SRecRef(run, self.base + i, self.layout, "row")
+
+
+@register
+class DataCall(Contract):
+    """Emulsion.data at the call site inside get_linked_data (its guard / row order: EmulsionDataGuard, verified in C08; here its heap effect)"""
+    key = f"{EM}:Emulsion.data"
+    variant = "linked-call"
+    call_site = True
+
+    def cases(self):
+        return []
+
+    def apply(self, engine, run, fi, args, kwargs):
+        g = run.ghost.get("linked")
+        if g is None or args[0] is not g["em"]:
+            return NotImplemented
+        me = args[0]
+        h = H.heap_of(run)
+        n = to_z3(me.length)
+        base = h.ptr
+        h.ptr = base + n
+        r, q = z3.Int("lr"), z3.Int("lq")
+        src = lambda rr: z3.Select(h.arr["data"], z3.Select(me.elems, rr - base))      # noqa: E731  record of member (rr - base)
+        inblk = lambda rr: z3.And(rr >= base, rr < base + n)                           # noqa: E731
+        for k_, kind in me.elem_layout.items():
+            names = [k_] + ([k_ + "__nan"] if kind == "maybe_nan" else [])
+            for nm in names:
+                a = h.arr[nm]
+                if kind in ("real", "maybe_nan"):
+                    h.arr[nm] = z3.Lambda([r], z3.If(inblk(r), z3.Select(a, src(r)), z3.Select(a, r)))
+                elif kind[0] == "vec":
+                    V = H.Heap.VEC
+                    h.arr[nm] = z3.Lambda([q], z3.If(inblk(q / V), z3.Select(a, src(q / V) * V + q % V), z3.Select(a, q)))
+                else:
+                    raise Undecided("linked data of droplets with amplitude vectors")
+        a = h.arr["dtype_tag"]
+        h.arr["dtype_tag"] = z3.Lambda([r], z3.If(inblk(r), z3.Select(a, src(r)), z3.Select(a, r)))
+        run.trust("numpy: np.array([d.data for d in members]) is NEW storage whose row k holds the field values of member k (Emulsion.data; its class guard is verified in C08)")
+        arr = _RowArr(run, base, n, me.elem_layout)
+        g["array"] = arr
+        return arr
+
+
+@loop(KEY_LINK, 0)
+class LinkLoop(LoopSpec):
+    """for i, d in enumerate(self): d.data = data[i]  --  members below the cursor point at their row, all other objects are as before"""
+
+    def init_ghost(self, run, env):
+        g = run.ghost["linked"]
+        g["data_mid"] = H.heap_of(run).arr["data"]
+
+    def havoc(self, run, env):
+        h = H.heap_of(run)
+        h.havoc(["data"])
+
+    def invariant(self, run, env, i, seq):
+        g = run.ghost["linked"]
+        h = H.heap_of(run)
+        me, arr = g["em"], g.get("array")
+        if arr is None or "data" not in env or env["data"] is not arr:
+            yield ("the members are linked to the rows of the array built from the emulsion's data", z3.BoolVal(False))
+            return
+        r = z3.Int("ir")
+        inv = g["INV"]
+        linked = z3.And(inv(r) >= 0, inv(r) < i, z3.Select(me.elems, inv(r)) == r)
+        yield ("every object's data reference: row k for member k below the cursor, unchanged for everything else",
+               z3.ForAll([r], z3.Select(h.arr["data"], r) == z3.If(linked, arr.base + inv(r), z3.Select(g["data_mid"], r))))
+
+
+@register
+class LinkedData(Contract):
+    """Emulsion.get_linked_data: afterwards droplet k's data IS row k of the returned array (one record, two names: a write through either is seen
+    through the other), the rows hold the values the droplets had, and nothing else changes.  Requires distinct member objects."""
+    key = KEY_LINK
+    modular = False
+    prefer_variants = {f"{EM}:Emulsion.data": "linked-call"}
+
+    def cases(self):
+        return [dict(cls=c, dim=d) for c in CLASSES for d in (2, 3)]
+
+    def setup(self, run, case):
+        lay = layout_of(case["cls"], case["dim"])
+        touch_layout(run, lay)
+        em = sym_em(run, "self", case["dim"], case["cls"])
+        k, l = z3.Ints("dk dl")
+        n = to_z3(em.length)
+        INV = z3.Function("index_of_member", I, I)
+        # requires: the members are distinct objects (true for emulsions filled with the default copy=True); INV is the inverse of the member list
+        run.assume(z3.ForAll([k], z3.Implies(z3.And(k >= 0, k < n), INV(z3.Select(em.elems, k)) == k)))
+        run.ghost["linked"] = dict(em=em, INV=INV)
+        self.ctx = (run, em, lay, snapshot(run), INV)
+        return dict(self=em)
+
+    def post(self, a, ret, case):
+        run, em, lay, arrs0, INV = self.ctx
+        h = H.heap_of(run)
+        g = run.ghost["linked"]
+        arr = g.get("array")
+        if arr is None or ret is not arr:
+            return [("the array built from the emulsion's data is returned", False)]
+        k = z3.Int("sk_member")
+        n = to_z3(em.length)
+        inr = z3.And(k >= 0, k < n)
+        row = arr.base + k
+        obj = z3.Select(em.elems, k)
+        r = z3.Int("fr")
+        out = [("droplet k's data IS row k of the returned array (the same record: writes through the array show in the droplet and vice versa)",
+                z3.Implies(inr, z3.Select(h.arr["data"], obj) == row)),
+               ("row k holds the values droplet k had before", z3.Implies(inr, rec_fields_equal(lay, h.arr, row, arrs0, z3.Select(arrs0["data"], obj), case["dim"]))),
+               ("the rows are new storage", z3.Implies(inr, row >= h.alloc0)),
+               ("the members stay the same objects in the same order", z3.And(z3.BoolVal(z3.eq(em.elems, self.ctx[1].elems)), to_z3(em.length) == n)),
+               ("objects that are not members keep their data reference",
+                z3.ForAll([r], z3.Implies(z3.And(r >= 0, r < h.alloc0, z3.Not(z3.And(INV(r) >= 0, INV(r) < n, z3.Select(em.elems, INV(r)) == r))),
+                                          z3.Select(h.arr["data"], r) == z3.Select(arrs0["data"], r))))]
+        # records of the pre-state keep their values (only `data` references of the members change)
+        parts = []
+        for k_, kind in lay.items():
+            if kind in ("real", "maybe_nan"):
+                parts.append(z3.Select(h.arr[k_], r) == z3.Select(arrs0[k_], r))
+            elif kind[0] == "vec":
+                for j in range(kind[1]):
+                    parts.append(z3.Select(h.arr[k_], r * H.Heap.VEC + j) == z3.Select(arrs0[k_], r * H.Heap.VEC + j))
+        out.append(("no existing record is overwritten", z3.ForAll([r], z3.Implies(z3.And(r >= 0, r < h.alloc0), z3.And(*parts)))))
+        return out
